@@ -287,7 +287,7 @@ func (q *Query) buildGinst(rounds int) *ginstResult {
 			if h == "forall" || h == "exists" {
 				return
 			}
-			if (h == "select" || strings.HasPrefix(h, "pf$")) && sxContainsAll(t, vars) {
+			if (h == "select" || strings.HasPrefix(h, "pf$") || strings.HasPrefix(h, "sprintf$") || strings.HasPrefix(h, "uf$")) && sxContainsAll(t, vars) {
 				// prefer the smallest such terms: descend first
 				before := len(seen)
 				for _, c := range t.list[1:] {
@@ -339,7 +339,7 @@ func (q *Query) buildGinst(rounds int) *ginstResult {
 			if h == "forall" || h == "exists" {
 				return
 			}
-			if h == "select" || strings.HasPrefix(h, "pf$") {
+			if h == "select" || strings.HasPrefix(h, "pf$") || strings.HasPrefix(h, "sprintf$") || strings.HasPrefix(h, "uf$") {
 				if _, ok := terms[t.String()]; !ok {
 					terms[t.String()] = t
 				}
